@@ -287,7 +287,7 @@ def ref_matrix(text):
 
 
 KTH_MENU = ['', 'c a comment', '3', '2', '0', '1 : 0', '2 : 1 0', '3 : 1 2 0', '1 : 2 3 0', '2 : 3 0', '3 : 0', '2 : 2 0', '4 : 1 0',
-            '2 : 5 0', '2 : 1', '2 : x 0', 'x', '3 : 2 0', '-1', '2 : 1 0 0']
+            '2 : 5 0', '2 : 1', '2 : x 0', 'x', '3 : 2 0', '-1', '2 :']
 DIM_MENU = ['', 'c a comment', 'p edge 3 2', 'p edge 3 1', 'p edge 0 0', 'e 1 2', 'e 2 3', 'e 3 1', 'e 2 2', 'e 1 4', 'e 1', 'e 1 x',
             'p edge 2', 'p cnf 3 1', 'p edge -1 0', 'e 2 1', 'p edge 3 0', 'e 1 2 3']
 MAT_MENU = ['', '# comment', '2 2', '1 0', '0 1', '1 1', '2', '1 0 1 1', '0 2', 'x', '1 -1', '2 3', '0 0 1', '0 0', '1']
